@@ -13,7 +13,13 @@ def run(ctx):
                     invariants=W.INV_CONF, constraints=["NreqCap"], must_cover=["Round", "Done"])
     ctx.model_check("MC_Walk", "getnext_terminates", constants=W.consts("CandQ" if q else "CandT", "RootC", 2 if q else 3, "{0}", False),
                     properties=["Terminates"], must_cover=["Round"])    # liveness under weak fairness, no state constraint
+    # the agent's objects change while it answers: two roots may be answered with one instance under two values
+    ctx.model_check("MC_Walk", "getnext_volatile", constants=W.consts("CandQ", "RootC", 2 if q else 3, "{0,2}", False, Volatile=True),
+                    invariants=W.INV_CONF, constraints=["NreqCap"], must_cover=["Round"])
     if not q:
+        # self-test: the pinned ordering of the per-root groups by (OID, value) must be refuted (F28)
+        ctx.model_check("MC_Walk", "selftest_value_order", constants=W.consts("CandQ", "RootC", 2, "{0,2}", False, Volatile=True, PinValueOrder=True),
+                        invariants=W.INV_CONF, constraints=["NreqCap"], expect=["Complete"])
         # self-test: the pinned first request in caller order must be refuted (vacuity guard for Complete)
         ctx.model_check("MC_Walk", "selftest_first_order", constants=W.consts("CandQ", "RootC", 3, "{0}", False, PinFirstOrder=True),
                         invariants=W.INV_CONF, constraints=["NreqCap"], expect=["Complete"])
@@ -35,6 +41,20 @@ def run(ctx):
         if rnd.random() < 0.3:
             # bulk walks are walks too (their equality with the GETNEXT walk is C02's subject)
             S.append(dict(sc, bulk=rnd.choice([1, 2, 3, 5]), api="bulkwalk", cut=rnd.choice(list(drv_walk.CUTS)), proto="v2c"))
+    # volatile objects (counters, sysUpTime): every binding the agent serves carries another value, also two bindings of one instance in
+    # one response - e.g. an empty subtree next to a populated one: both are answered with the first instance of the second
+    VOL = [dict(db=[[2, 1], [2, 2], [3, 1]], roots=[[1], [2]]), dict(db=[[2, 1]], roots=[[2], [1]]), dict(db=[[3, 1], [3, 2]], roots=[[1], [2], [3]]),
+           dict(db=[[1, 1], [3, 1], [3, 2]], roots=[[1], [2], [3]]), dict(db=[[1, 1, 1], [1, 3, 1]], roots=[[1, 2], [1, 3], [1, 1]])]
+    for sc in VOL:
+        for proto in ["v2c"] + ([rnd.choice(W.PROTO_SAMPLE)] if q else W.PROTO_SAMPLE):
+            S.append(dict(sc, bulk=0, api="multiwalk", proto=proto, volatile=True))
+            S.append(dict(sc, bulk=0, api="py.multiwalk", proto=proto, volatile=True))
+            for m in (1, 2, 5):
+                S.append(dict(sc, bulk=m, api="bulkwalk", cut=rnd.choice(list(drv_walk.CUTS)), proto=proto, volatile=True))
+    for sc in scs:
+        if len(sc["roots"]) >= 2 and rnd.random() < (0.04 if q else 0.2):
+            S.append(dict(sc, bulk=0, api="multiwalk", proto="v2c", volatile=True))
+            S.append(dict(sc, bulk=rnd.choice([1, 2, 3]), api="bulkwalk", cut=rnd.choice(list(drv_walk.CUTS)), proto="v2c", volatile=True))
     for sc in W.random_big(rnd, 150 if q else 1500, [0]):
         S.append(dict(sc, api="multiwalk" if len(sc["roots"]) > 1 else rnd.choice(["walk", "multiwalk"]), proto=rnd.choice(["v2c", "v2c"] + W.PROTO_SAMPLE)))
     for sc in W.random_big(rnd, 80 if q else 800, [2, 3, 4, 7, 25]):
@@ -56,12 +76,12 @@ def run(ctx):
                 S.append(dict(db=special, roots=roots, bulk=rnd.choice([1, 2, 3, 10]), api="bulkwalk", cut="full", proto=proto, pfx=pfx))
     ctx.rule = ("scenarios = TLC-enumerated initial states of Walk.tla (every database over the %d-instance universe x every list of 1..3 "
                 "pairwise disjoint roots in every order%s) replayed through Client.walk/multiwalk, PyWrapper, v2c and sampled v3 levels, "
-                "plus seeded random larger databases (30-200 instances, 1-5 roots) walked by GETNEXT and by GETBULK with repetitions 2..25; the universe placed over the usmStats / system / snmpV2 subtrees for v2c and all v3 levels; non-trivial = distinct scenario with >= 2 requests and >= 1 delivered instance") % (
+                "plus seeded random larger databases (30-200 instances, 1-5 roots) walked by GETNEXT and by GETBULK with repetitions 2..25; the universe placed over the usmStats / system / snmpV2 subtrees for v2c and all v3 levels; agents whose objects change with every binding served (volatile); non-trivial = distinct scenario with >= 2 requests and >= 1 delivered instance") % (
                    7 if q else 9, "; 3-root lists sampled 1/4 in quick" if q else "")
     ctx.exhaustive = not q
     W.drive_and_judge(ctx, S)
     ctx.assumptions = ["agent = reference agent (harness/refagent.py), every answer re-checked against spec/Agent.tla by the monitor",
-                       "v1 is outside the property", "values are injective tokens of the OID"]
+                       "v1 is outside the property", "values are injective tokens of the OID, or (volatile scenarios) differ in every binding served"]
 
 
 def replay(ctx, path):
